@@ -12,6 +12,7 @@
 # permissions and limitations under the License.
 from typing import List, Optional, Dict, Any
 import logging
+import copy
 
 from syne_tune.optimizer.schedulers.searchers.cost_aware.cost_aware_gp_fifo_searcher import (
     MultiModelGPFIFOSearcher,
@@ -101,7 +102,7 @@ class ConstrainedGPFIFOSearcher(MultiModelGPFIFOSearcher):
     def clone_from_state(self, state):
         # Create clone with mutable state taken from 'state'
         init_state = decode_state(state["state"], self._hp_ranges_in_state())
-        output_skip_optimization = state["skip_optimization"]
+        output_skip_optimization = copy.deepcopy(state["skip_optimization"])
         output_estimator = self.state_transformer.estimator
         # Call internal constructor
         new_searcher = ConstrainedGPFIFOSearcher(
